@@ -1249,6 +1249,84 @@ func (*SymbolTableStruct).ExistsId
   requires s != nil && lockOf(s) == 0
   ensures balance: lockOf(s) == 0
 
+// ==== C25: sync primitives under misuse ======================================================
+// Unlocking a native mutex that is not held is a fatal error no recover() can stop, so the
+// wrappers must know that the native lock is held before they unlock it.  The wrapper's own
+// flag/counter never claims more than is held (mxInv/rwInv); every step of Lock/Unlock keeps
+// that one-directional invariant, which is therefore stable under interleaving as well.
+spec fn mxHeld(m *Mutex) bool = ghost(lockstate, &m.Native) == -1
+spec fn mxFlag(m *Mutex) bool = ghost(atom, &m.locked) != 0
+spec fn mxInv(m *Mutex) bool = mxFlag(m) ==> mxHeld(m)
+
+func (*Mutex).Lock
+  props C25
+  requires m != nil && ghost(lockstate, &m.Native) == 0 && mxInv(m)
+  ensures mxHeld(m) && mxFlag(m)
+
+// any state, any number of surplus unlocks: the documented error, never a fatal error
+func (*Mutex).Unlock
+  props C25 C01
+  requires m != nil && mxInv(m)
+  ensures unheld: !old(mxFlag(m)) ==> isErr(err, MutexUnlockedErrorClass) && ghost(lockstate, &m.Native) == old(ghost(lockstate, &m.Native))
+  ensures held: old(mxFlag(m)) ==> err == Undefined && ghost(lockstate, &m.Native) == 0
+  ensures inv: !mxFlag(m) && mxInv(m)
+
+spec fn rwWriter(m *RWMutex) bool = ghost(atom, &m.writer) != 0
+spec fn rwReaders(m *RWMutex) int = ghost(atom, &m.readers)
+spec fn rwInv(m *RWMutex) bool = (rwWriter(m) ==> ghost(lockstate, &m.Native) == -1) && rwReaders(m) >= 0 && (rwReaders(m) > 0 ==> ghost(lockstate, &m.Native) >= rwReaders(m))
+
+func (*RWMutex).Lock
+  props C25
+  requires m != nil && ghost(lockstate, &m.Native) == 0 && rwInv(m)
+  ensures ghost(lockstate, &m.Native) == -1 && rwWriter(m) && rwInv(m)
+
+func (*RWMutex).ReadLock
+  props C25
+  requires m != nil && ghost(lockstate, &m.Native) >= 0 && rwInv(m) && rwReaders(m) < 4611686018427387904
+  ensures ghost(lockstate, &m.Native) == old(ghost(lockstate, &m.Native)) + 1 && rwReaders(m) == old(rwReaders(m)) + 1 && rwInv(m)
+
+func (*RWMutex).Unlock
+  props C25 C01
+  requires m != nil && rwInv(m)
+  ensures unheld: !old(rwWriter(m)) ==> isErr(err, RWMutexUnlockedErrorClass) && ghost(lockstate, &m.Native) == old(ghost(lockstate, &m.Native))
+  ensures held: old(rwWriter(m)) ==> err == Undefined && ghost(lockstate, &m.Native) == 0
+  ensures inv: !rwWriter(m) && rwInv(m)
+
+func (*RWMutex).ReadUnlock
+  props C25 C01
+  requires m != nil && rwInv(m)
+  ensures unheld: old(rwReaders(m)) == 0 ==> isErr(err, RWMutexUnlockedErrorClass) && ghost(lockstate, &m.Native) == old(ghost(lockstate, &m.Native))
+  ensures held: old(rwReaders(m)) > 0 ==> err == Undefined && ghost(lockstate, &m.Native) == old(ghost(lockstate, &m.Native)) - 1 && rwReaders(m) == old(rwReaders(m)) - 1
+  ensures inv: rwInv(m)
+  loop 1
+    invariant rwInv(m) && rwReaders(m) == old(rwReaders(m)) && ghost(lockstate, &m.Native) == old(ghost(lockstate, &m.Native))
+    decreases 0
+
+// the counter never goes negative through these wrappers: a negative counter is a Go panic
+// that nothing converts into the documented Elk error
+func (*WaitGroup).Add
+  props C25 C01
+  requires w != nil
+  ensures ghost(wgcount, &w.Native) == old(ghost(wgcount, &w.Native)) + n
+
+func (*WaitGroup).Remove
+  props C25 C01
+  requires w != nil
+  ensures n >= 0 ==> ghost(wgcount, &w.Native) == old(ghost(wgcount, &w.Native)) - n
+  loop 1
+    invariant 0 <= range_idx && ghost(wgcount, &w.Native) == old(ghost(wgcount, &w.Native)) - range_idx
+    decreases n - range_idx
+
+func (*WaitGroup).Start
+  props C25
+  requires w != nil && ghost(wgcount, &w.Native) >= 0
+  ensures ghost(wgcount, &w.Native) == old(ghost(wgcount, &w.Native)) + 1
+
+func (*WaitGroup).End
+  props C25 C01
+  requires w != nil
+  ensures ghost(wgcount, &w.Native) == old(ghost(wgcount, &w.Native)) - 1
+
 // ==== C07: fixed-width integers =============================================================
 // (this block is written by /verif/tools/gen_c07_contracts.py)
 // Reference semantics: two's-complement arithmetic modulo 2^bits.  wrapW reduces a mathematical
